@@ -43,6 +43,13 @@ func c04Check(c *hist.Case, r *evid.Rec) []evid.Disc {
 		return nil
 	}
 	m := hist.Analyze(run)
+	return withTranscript(optionDiscs(c, run, m, r, "C04"), run)
+}
+
+// optionDiscs is the subscription-options oracle (granted QoS, delivered QoS, identifiers, retain flag, retained
+// replays), shared with the checks that re-examine it in another setting (after a restart: C20); pre is the
+// property id used in the signatures.
+func optionDiscs(c *hist.Case, run *hist.Run, m *hist.Model, r *evid.Rec, pre string) []evid.Disc {
 	maxQ := byte(2)
 	if c.Cfg.MaximumQos != nil {
 		maxQ = *c.Cfg.MaximumQos
@@ -64,7 +71,7 @@ func c04Check(c *hist.Case, r *evid.Rec) []evid.Disc {
 			}
 			want := minB(f.QoS, maxQ)
 			if ev.Codes[i] != want {
-				ds = append(ds, evid.D("C04-suback-granted-qos", "step %d: %s subscribed %q with QoS %d, server maximum %d: SUBACK code 0x%02X, expected 0x%02X", ev.Step, ev.CID, f.Filter, f.QoS, maxQ, ev.Codes[i], want))
+				ds = append(ds, evid.D(pre+"-suback-granted-qos", "step %d: %s subscribed %q with QoS %d, server maximum %d: SUBACK code 0x%02X, expected 0x%02X", ev.Step, ev.CID, f.Filter, f.QoS, maxQ, ev.Codes[i], want))
 			}
 			if f.QoS > maxQ {
 				r.NonTrivial(fmt.Sprintf("cap|%s|%d|%d", f.Filter, f.QoS, maxQ))
@@ -113,11 +120,11 @@ func c04Check(c *hist.Case, r *evid.Rec) []evid.Disc {
 				}
 				wantQ := minB(ti.QoS, subMax, maxQ)
 				if g.QoS != wantQ {
-					ds = append(ds, evid.D("C04-delivered-qos", "step %d: m%d published at QoS %d, %s matches %s (max sub QoS %d), server maximum %d: delivered at QoS %d, expected %d", s.I, s.Tag, ti.QoS, cid, subList(all), subMax, maxQ, g.QoS, wantQ))
+					ds = append(ds, evid.D(pre+"-delivered-qos", "step %d: m%d published at QoS %d, %s matches %s (max sub QoS %d), server maximum %d: delivered at QoS %d, expected %d", s.I, s.Tag, ti.QoS, cid, subList(all), subMax, maxQ, g.QoS, wantQ))
 				}
 				if p.Version == 5 {
 					if idSet(g.Props.SubscriptionIDs) != idSet(ids) {
-						ds = append(ds, evid.D("C04-live-subscription-identifiers", "step %d: m%d to %s: identifiers %v, expected the set %v of matching subscriptions %s", s.I, s.Tag, cid, g.Props.SubscriptionIDs, ids, subList(all)))
+						ds = append(ds, evid.D(pre+"-live-subscription-identifiers", "step %d: m%d to %s: identifiers %v, expected the set %v of matching subscriptions %s", s.I, s.Tag, cid, g.Props.SubscriptionIDs, ids, subList(all)))
 					}
 				}
 				wantRetain, assertRetain := false, true
@@ -133,7 +140,7 @@ func c04Check(c *hist.Case, r *evid.Rec) []evid.Disc {
 					r.NotAsserted()
 				}
 				if assertRetain && g.Retain != wantRetain {
-					ds = append(ds, evid.D("C04-live-retain-flag", "step %d: m%d (retain=%v) to %s v%d (subscriptions %s): retain flag %v, expected %v", s.I, s.Tag, ti.Retain, cid, p.Version, subList(all), g.Retain, wantRetain))
+					ds = append(ds, evid.D(pre+"-live-retain-flag", "step %d: m%d (retain=%v) to %s v%d (subscriptions %s): retain flag %v, expected %v", s.I, s.Tag, ti.Retain, cid, p.Version, subList(all), g.Retain, wantRetain))
 				}
 				if len(all) >= 2 || ti.QoS > maxQ || subMax > maxQ {
 					r.NonTrivial(fmt.Sprintf("live|%s|%d|%d|%v", subList(all), ti.QoS, maxQ, ti.Retain))
@@ -175,7 +182,7 @@ func c04Check(c *hist.Case, r *evid.Rec) []evid.Disc {
 					}
 				}
 				if !okQ {
-					ds = append(ds, evid.D("C04-retained-qos", "step %d: retained m%d (QoS %d) replayed to %s for %v at QoS %d", s.I, tag, ti.QoS, p.CID, fs, o.P.QoS))
+					ds = append(ds, evid.D(pre+"-retained-qos", "step %d: retained m%d (QoS %d) replayed to %s for %v at QoS %d", s.I, tag, ti.QoS, p.CID, fs, o.P.QoS))
 				}
 				if p.Version == 5 {
 					want := []uint32{}
@@ -183,7 +190,7 @@ func c04Check(c *hist.Case, r *evid.Rec) []evid.Disc {
 						want = append(want, s.A.SubID)
 					}
 					if idSet(o.P.Props.SubscriptionIDs) != idSet(want) {
-						ds = append(ds, evid.D("C04-retained-subscription-identifier", "step %d: retained m%d replayed to %s for a SUBSCRIBE with identifier %d carries identifiers %v", s.I, tag, p.CID, s.A.SubID, o.P.Props.SubscriptionIDs))
+						ds = append(ds, evid.D(pre+"-retained-subscription-identifier", "step %d: retained m%d replayed to %s for a SUBSCRIBE with identifier %d carries identifiers %v", s.I, tag, p.CID, s.A.SubID, o.P.Props.SubscriptionIDs))
 					}
 					if s.A.SubID > 0 {
 						r.NonTrivial(fmt.Sprintf("retained|%s|%d", ti.Topic, s.A.SubID))
@@ -192,7 +199,7 @@ func c04Check(c *hist.Case, r *evid.Rec) []evid.Disc {
 			}
 		}
 	}
-	return withTranscript(ds, run)
+	return ds
 }
 
 func TestC04(t *testing.T) {
